@@ -57,3 +57,8 @@ Fixpoint aremove {V} (k : N) (m : list (N * V)) : list (N * V) :=
   end.
 Definition ainsert {V} (k : N) (v : V) (m : list (N * V)) : list (N * V) :=
   (k, v) :: aremove k m.
+
+(* linear-time reversal (List.rev is quadratic, which matters for the extracted model) *)
+Definition frev {A} (l : list A) : list A := rev_append l [].
+Lemma frev_rev {A} (l : list A) : frev l = rev l.
+Proof. unfold frev. symmetry. apply rev_alt. Qed.
